@@ -2,6 +2,7 @@ mod alloc_track;
 mod c03;
 mod c04;
 mod c05;
+mod c06;
 mod c20;
 mod smoke;
 mod typed;
@@ -28,6 +29,7 @@ fn main() {
         "C03" => c03::run(&ctx),
         "C04" => c04::run(&ctx),
         "C05" => c05::run(&ctx),
+        "C06" => c06::run(&ctx),
         "C20" => c20::run(&ctx),
         _ => {
             eprintln!("MACHINERY: unknown check {id}");
